@@ -206,13 +206,17 @@ Section Universe.
     let m2 := res_tag d r m1 in
     maybe_save cfg o (mkStore (blobs s) m2 (gr s) (disk s)).
 
-  (* Store.Push of node k with its plain descriptor *)
-  Definition st_push (cfg : config) (o : orders) (k : nat) (s : store) : store * result :=
+  (* Store.Push with descriptor d (the digest entry of a manifest keeps what d carries) *)
+  Definition st_push_desc (cfg : config) (o : orders) (d : desc) (s : store) : store * result :=
+    let k := d_node d in
     if mem k (blobs s) then (s, RAlreadyExists)
     else if bad k then (s, RBadContent)    (* graph.Index fails: the blob is removed again *)
     else
       let s1 := mkStore (k :: blobs s) (res s) (add k (gr s)) (disk s) in
-      if mf k then (st_tag cfg o (plain k) (RDig k) s1, ROk) else (s1, ROk).
+      if mf k then (st_tag cfg o d (RDig k) s1, ROk) else (s1, ROk).
+  (* ... with the plain descriptor of node k *)
+  Definition st_push (cfg : config) (o : orders) (k : nat) (s : store) : store * result :=
+    st_push_desc cfg o (plain k) s.
 
   (* Store.Tag (reference non-empty) *)
   Definition st_tagop (cfg : config) (o : orders) (d : desc) (r : ref) (s : store) : store * result :=
@@ -397,6 +401,7 @@ Section Universe.
   (* ---------- operations and histories ---------- *)
   Inductive op :=
   | OPush (k : nat)
+  | OPushX (d : desc)      (* Push with a descriptor that carries annotations etc. *)
   | OTag (d : desc) (r : ref)
   | OUntag (r : ref)
   | ODelete (k : nat)
@@ -411,6 +416,7 @@ Section Universe.
     let o := snd oo in
     match fst oo with
     | OPush k => st_push cfg o k s
+    | OPushX d => st_push_desc cfg o d s
     | OTag d r => st_tagop cfg o d r s
     | OUntag r => st_untag cfg o r s
     | ODelete k => st_delete cfg o k s
